@@ -10,6 +10,43 @@ RULE = ("synthetic files (3D all layouts, irregular, 2D) x argument tuples with 
         "; K: Model/HeaderReads.run vs real header histories with ordinals at / beyond the trace count and the grid, either padding mode")
 
 
+def emulator_ordinals(ctx, rng):
+    """the segyio-style accessors on 3D, irregular and 2D files (with and without stored header arrays): ordinals -L-1, L and
+    far outside must raise IndexError; -1 and -L denote the last and the first item"""
+    import seismic_zfp
+    from .. import synth
+    for k in range(ctx.n(8, 80)):
+        kind = ['2d', '2d', 'default', 'irregular'][k % 4]
+        if kind == '2d':
+            n, bs, q = (1, int(rng.integers(2, 40)), int(rng.integers(4, 30))), (1, 16, 512), 16
+        else:
+            n, bs, q = gen.geometry_3d(rng, klass='default', max_voxels=4000)
+        fi = synth.make(ctx.path('eo.sgz'), n, bs, q, rng, is2d=(kind == '2d'), n_arrays=[0, 2][k % 2] if kind == '2d' else 2,
+                        irregular=(kind == 'irregular'))
+        T = fi.tracecount
+        desc = {'kind': kind, 'n': n, 'tracecount': T, 'stored_arrays': sorted(fi.arrays)}
+        with seismic_zfp.open(fi.path) as f:
+            accs = [('header', f.header, T), ('trace', f.trace, T)] + ([('depth_slice', f.depth_slice, n[2])] if kind != '2d' else [])
+            for name, acc, L in accs:
+                for v in (-L - 1, L, L + 7, -L - 40, 2 ** 31):
+                    ctx.case((kind, n, name, v))
+                    ctx.stats['emulator_ordinals'] += 1
+                    try:
+                        acc[v]
+                        ctx.fail(f'{name}[{v}] on a file with {L} items returned an item instead of raising IndexError',
+                                 dict(desc, expr=f'{name}[{v}]'))
+                    except IndexError:
+                        pass
+                    except Exception as e:  # noqa
+                        ctx.fail(f'{name}[{v}] raised {type(e).__name__} instead of IndexError', dict(desc, expr=f'{name}[{v}]'))
+                if name == 'header':
+                    try:
+                        if dict(acc[-1]) != dict(acc[L - 1]) or dict(acc[-L]) != dict(acc[0]):
+                            ctx.fail('header[-1] / header[-L] are not the last / first header', desc)
+                    except Exception as e:  # noqa
+                        ctx.fail(f'header[-1] / header[-L] raised {type(e).__name__}', desc)
+
+
 def run(ctx):
     model = core.Model()
     rng = gen.rng_for(ctx.seed, 'c14')
@@ -33,6 +70,7 @@ def run(ctx):
                     readcheck.check_ops(ctx, None, s, hops, props=('C14', 'C02'), cold=False, tag='after-header-read')
             finally:
                 s.close()
+        emulator_ordinals(ctx, gen.rng_for(ctx.seed, 'c14-emulator'))
         # K: virtual files beyond 4 GiB with arguments just outside the extent and at 2^31 / 2^32 (+ extent)
         from .. import hugecheck
         hugecheck.run(ctx, model, gen.rng_for(ctx.seed, 'c14-huge'), blob_too=False, wide=False, beyond=True)
